@@ -29,7 +29,7 @@ META = dict(
     bounds=dict(quick=dict(methods=len(METHODS), single_fault="every access index k of every method, kinds vanish / deny(EACCES) / deny(EPERM) / zombie", two_faults=f"deny at i, vanish at j>i for {len(TWO_FAULT_Q)} methods"),
                 thorough=dict(methods=len(METHODS), single_fault="as quick", two_faults="all methods")),
     outside=["EIO/ENOMEM and faults on system-wide files", "more than two faults in one call"],
-    labels=["only-psutil-errors[vanish]", "only-psutil-errors[deny]", "only-psutil-errors[zombie]", "carries-pid", "AD-only-if-denied", "Zombie-only-if-zombie", "gone-stays-gone", "process_iter-skips", "as_dict-ad_value"],
+    labels=["only-psutil-errors[vanish]", "only-psutil-errors[deny]", "only-psutil-errors[zombie]", "carries-pid", "AD-only-if-denied", "Zombie-only-if-zombie", "gone-stays-gone", "process_iter-skips", "as_dict-ad_value", "relative-result"],
 )
 
 
@@ -52,11 +52,11 @@ def build(ctx, zombie=False):
     return k
 
 
-def classify(ctx, exc, kind, method, info):
+def classify(ctx, exc, kind, method, info, pids=(P,)):
     ctx.prove(exc is None or isinstance(exc, OK), f"only-psutil-errors[{kind.split('_')[0]}]", detail=f"{method}: {type(exc).__name__}: {exc} | {info}")
     if exc is None or not isinstance(exc, OK):
         return
-    ctx.prove(exc.pid == P, "carries-pid", detail=f"{method}: {exc!r} | {info}")
+    ctx.prove(exc.pid in pids, "carries-pid", detail=f"{method}: {exc!r} | {info}")
     if isinstance(exc, psutil.AccessDenied):
         ctx.prove("deny" in kind, "AD-only-if-denied", detail=f"{method} | {info}")
     if isinstance(exc, psutil.ZombieProcess):
@@ -97,6 +97,45 @@ def single(ctx, method, kind):
                     e2 = e
                 ctx.prove(isinstance(e2, psutil.NoSuchProcess) and e2.pid == P, "gone-stays-gone", detail=f"after {method} vanished at {k.fault.fired[0]}: {m2} -> {e2!r}")
             ctx.prove(p.is_running() is False, "gone-stays-gone", detail="is_running()")
+
+
+@harness("C03.relative", quick=[dict(method=m, kind=kd) for m in ("children", "children_r", "parent", "parents") for kd in ("vanish", "deny", "deny_eperm", "zombie")], timeout_ms=5000)
+def relative(ctx, method, kind):
+    """the process that vanishes / turns unreadable / is a zombie while the tree is walked is a RELATIVE of the object (its child for
+    children(), its parent for parent()/parents()), at every access index to that relative's /proc entries: the outcome is a value
+    or a psutil error carrying the pid of the object or of that relative"""
+    rel = 90 if method.startswith("children") else 1
+    k = simk.Kernel(ctx)
+    simk.system_files(k)
+    simk.full_process(k, 1, ppid=0, comm="init", zombie=(kind == "zombie" and rel == 1))
+    simk.full_process(k, P, ppid=1)
+    simk.full_process(k, 90, ppid=P, comm="kid", zombie=(kind == "zombie" and rel == 90))
+    simk.full_process(k, 91, ppid=P, comm="kid2")
+    k.dirs["/proc"] = ["1", str(P), "90", "91"]
+    k.fault.pid = rel
+    with k.installed():
+        p = psutil.Process(P)
+        k.fault.prefix = f"/proc/{rel}"
+        k.naccess = 0
+        idx = ctx.int("k", 0, 400)
+        if kind == "vanish":
+            k.fault.vanish_at = idx
+        elif kind in ("deny", "deny_eperm"):
+            k.fault.deny_at = idx
+            k.fault.deny_errno = errno.EACCES if kind == "deny" else errno.EPERM
+        try:
+            r, exc = call(p, method), None
+        except Exception as e:  # noqa: BLE001
+            r, exc = None, e
+        info = f"fault on pid {rel}: {k.fault.fired[:2]} after {k.naccess} accesses"
+        classify(ctx, exc, kind, method, info, pids=(P, rel))
+        if exc is None and method.startswith("children"):
+            got = sorted(c.pid for c in r)
+            # the sibling that is not affected is always reported; the affected child only if it is still there
+            untouched = kind in ("deny", "deny_eperm", "zombie") and not k.fault.fired     # (a vanish at index 0 is visible only as an absence)
+            ctx.prove(91 in got and set(got) <= {90, 91} and (90 in got or not untouched), "relative-result", detail=f"{method}: {got} | {info}")
+        if exc is None and method == "parent" and not k.fault.fired and kind != "vanish":
+            ctx.prove(r is not None and r.pid == 1, "relative-result", detail=f"parent: {r.pid if r else None}")
 
 
 @harness("C03.double", quick=[dict(method=m) for m in TWO_FAULT_Q], thorough=[dict(method=m) for m in METHODS], timeout_ms=5000)
